@@ -488,6 +488,39 @@ pub fn c03(tier: &str) -> Vec<Family> {
     }
     fams.push(Family::new("connection_orders", TAGS_DELIVERY, sc_o).cap(cap));
 
+    // Connections added by the driver through a clone of the port kept since before init,
+    // after the model has already emitted through its own handle.
+    let mut sc_l = vec![];
+    for (iname, initial) in [("none", vec![]), ("model", vec![to(1)]), ("sink", vec![Conn::Buf { sink: 2, mode: Mode::Plain }])] {
+        let a = NodeSpec::new("A", 4).script(1, vec![sendp(0, 2, 0), sendp(0, 2, 1)]).out(initial.clone());
+        let mut spec = BenchSpec::new(vec![a, NodeSpec::new("B", 2), NodeSpec::new("C", 2), NodeSpec::new("D", 2)]);
+        spec.bufs = vec![64, 64, 64];
+        spec.slots = 3;
+        spec.hold_port_clones = true;
+        let spec = Arc::new(spec);
+        for k0 in 0..9usize {
+            // kinds are placed at positions 1 and 2 (node C / D, buffer 0 / 1... see kind_at) so that they never collide with `initial`.
+            let c0 = match kind_at(k0, 1) { Conn::Buf { mode, .. } => Conn::Buf { sink: 0, mode }, c => c };
+            sc_l.push(scn(
+                format!("late/{}/{}", iname, k0),
+                &spec,
+                vec![pe(0, 1, 0), Cmd::ConnectVia { node: 0, port: 0, conn: c0 }, pe(0, 1, 2), pe(0, 1, 5)],
+            ));
+            for k1 in 0..9usize {
+                if tier == "quick" && (k0 + k1) % 3 != 0 {
+                    continue;
+                }
+                let c1 = match kind_at(k1, 2) { Conn::Buf { mode, .. } => Conn::Buf { sink: 1, mode }, c => c };
+                sc_l.push(scn(
+                    format!("late/{}/{}-{}", iname, k0, k1),
+                    &spec,
+                    vec![Cmd::ConnectVia { node: 0, port: 0, conn: c0 }, pe(0, 1, 0), Cmd::ConnectVia { node: 0, port: 0, conn: c1 }, pe(0, 1, 3)],
+                ));
+            }
+        }
+    }
+    fams.push(Family::new("late_connections", TAGS_DELIVERY, sc_l).cap(cap));
+
     // Scheduler-originated batches: k same-time events from one origin into a
     // mailbox of capacity c (the compound future has to wait for space).
     let mut sc2 = vec![];
@@ -1752,7 +1785,15 @@ pub fn c17(tier: &str) -> Vec<Family> {
             ],
         ));
     }
-    vec![Family::new("model_to_sink", &["sink_order", "sink_content", "sink_capacity"], sc).cap(cap)]
+    let mut out = vec![Family::new("model_to_sink", &["sink_order", "sink_content", "sink_capacity"], sc).cap(cap)];
+    // Sinks connected late, through a clone of the port, and in every order with other connections.
+    for mut f in c03(tier) {
+        if f.name == "late_connections" || f.name == "connection_orders" {
+            f.tags = &["sink_order", "sink_content", "sink_capacity"];
+            out.push(f);
+        }
+    }
+    out
 }
 
 // ---------------------------------------------------------------------------
@@ -1952,7 +1993,7 @@ fn flavoured_spec(spec: &BenchSpec, fl: Flavour) -> Option<Arc<BenchSpec>> {
     }
 }
 
-/// Adds, for each family named in `which`, a family `<name>/flavours` running its
+/// Adds, for each family named in `which`, a family `<name>+flavours` running its
 /// scenarios with non-async / context-free input methods wherever the scripts
 /// allow it (quick: one alternative flavour per scenario, rotating; thorough: all three).
 pub fn with_flavours(mut fams: Vec<Family>, which: &[&str], tier: &str) -> Vec<Family> {
@@ -1986,7 +2027,7 @@ pub fn with_flavours(mut fams: Vec<Family>, which: &[&str], tier: &str) -> Vec<F
         if sc.is_empty() {
             continue;
         }
-        let name: &'static str = Box::leak(format!("{}/flavours", f.name).into_boxed_str());
+        let name: &'static str = Box::leak(format!("{}+flavours", f.name).into_boxed_str());
         let mut g = Family::new(name, f.tags, sc);
         g.dev_bound = f.dev_bound;
         g.max_execs = f.max_execs;
